@@ -281,6 +281,9 @@ structure Host where
   method : World → Nat → String → List Val → Option (Val × World)
   /-- `QString::arg(x)` -/
   arg : List Char → Val → Option (List Char)
+  /-- `QCoreApplication::translate(context, source)`: the translation of a source text in a context — a deterministic
+      function of BOTH (the same text may be translated differently in another document) -/
+  tr : String → List Char → List Char := fun _ x => x
 
 structure Ctx where
   H : Host
@@ -296,6 +299,9 @@ structure Ctx where
   propTy : String → String → Option STy
   /-- result type of the invokable method / slot `name` of class `cls` -/
   methodTy : String → String → Option STy
+  /-- the type name of the document: the translation context of EVERY `qsTr(…)` of the document — in property bindings
+      and in signal handlers alike, whatever the id of the root object is (or whether it has one) -/
+  docType : String := ""
   /-- evaluation order of a call.  `false` (THE SPECIFICATION): the callee expression (and its receiver object) first,
       then the arguments left to right — JavaScript.  `true` = "the F42 variant": the arguments first, then the callee
       expression — what the compiler does today; it exists only so that a deviation of the real code can be attributed
@@ -596,7 +602,7 @@ def evalExpr (c : Ctx) : Expr → St → Option (Val × St)
               | none => none)
          | .math name, [a, b] => (minmax c.H.F (name = "max") a b).map fun v => (v, s)
          | .console lv, _ => (concretizeAll vs).map fun vs => (.void, s.emit (.log lv vs))   -- `integer` → `int`
-         | .qsTr, [.str x] => some (.str x, s)
+         | .qsTr, [.str x] => some (.str (c.H.tr c.docType x), s)
          | .strMethod x "isEmpty", [] => some (.bool x.isEmpty, s)
          | .strMethod x "arg", [a] => (c.H.arg x a).map fun r => (.str r, s)
          | .listMethod xs "isEmpty", [] => some (.bool xs.isEmpty, s)
